@@ -1428,6 +1428,23 @@ class SyncObj(object):
         else:
             data = None
         cluster = self.__otherNodes | {self.__selfNode}
+        if self.__conf.dynamicMembershipChange:
+            # Membership changes take effect when appended, but the dump describes the last applied
+            # entry: leave out the changes of later entries, they may still be truncated (whoever loads
+            # the dump gets them from the entries themselves).
+            for entry in reversed(self.__getEntries(self.__raftLastApplied + 1)):
+                clusterChangeRequest = self.__parseChangeClusterRequest(entry[0])
+                if clusterChangeRequest is None:
+                    continue
+                node = clusterChangeRequest[2] if len(clusterChangeRequest) >= 3 else clusterChangeRequest[1]
+                if not isinstance(node, Node):
+                    node = self.__nodeClass(node)
+                if node == self.__selfNode:
+                    continue
+                if clusterChangeRequest[0] == 'add':
+                    cluster.discard(node)
+                elif clusterChangeRequest[0] == 'rem':
+                    cluster.add(node)
         self.__serializer.serialize((data, lastAppliedEntries[1], lastAppliedEntries[0], cluster), lastAppliedEntries[0][1])
 
     def __loadDumpFile(self, clearJournal):
@@ -1472,6 +1489,11 @@ class SyncObj(object):
 
             if self.__conf.dynamicMembershipChange:
                 self.__updateClusterConfiguration([node for node in data[3] if node != self.__selfNode])
+                # Entries of our log that follow the dump take effect when appended
+                for entry in self.__getEntries(data[1][1] + 1):
+                    clusterChangeRequest = self.__parseChangeClusterRequest(entry[0])
+                    if clusterChangeRequest is not None:
+                        self.__doChangeCluster(clusterChangeRequest)
             self.__onSetCodeVersion(self.__enabledCodeVersion)
             return data[1][1]
         except:
